@@ -24,7 +24,8 @@ LEVEL = "proof"
 MANIFEST = {
     "text": "proof-level for the stated clause: a finite list of obligations (one per global variable, "
             "per library function footprint, per const pointer parameter of the public API, per external "
-            "callee), all discharged by an effect/provenance analysis over the linked LLVM IR of every back "
+            "callee, per constant-extent access through a caller's byte buffer whose remaining length the guards "
+            "bound), all discharged by an effect/provenance analysis over the linked LLVM IR of every back "
             "end, the CHECK build, the no-system-TRNG selection and the C++ units; data-race freedom of "
             "operations on distinct objects follows from disjoint mutable footprints",
     "note": "trusted base: clang/LLVM-14 lowering and irdump, the python provenance analysis, the table of "
